@@ -63,6 +63,20 @@ func (m *machine) allocSize(v value, what string) int {
 	if !t.IsConst() && m.allocMax > 0 {
 		// is a size beyond the bound feasible?
 		big := m.ctx.SLt(m.ctx.BV(uint64(m.allocMax), t.Width()), t)
+		if t.Width() >= 40 && m.allocMax < 1<<32 {
+			// prefer a witness whose size is unmistakable in a native replay
+			huge := m.ctx.SLt(m.ctx.BV(1<<32, t.Width()), t)
+			if m.chk(huge) == Sat {
+				m.violate("alloc", "AllocBound", fmt.Sprintf("allocation size can exceed %d at %s", m.allocMax, m.where()))
+			}
+		}
+		if t.Width() >= 16 {
+			// ... or at least beyond the slack of the native measurement (8k+16384, harness/api.go)
+			mid := m.ctx.SLt(m.ctx.BV(uint64(8*m.allocMax+16384+2048), t.Width()), t)
+			if m.chk(mid) == Sat {
+				m.violate("alloc", "AllocBound", fmt.Sprintf("allocation size can exceed %d at %s", m.allocMax, m.where()))
+			}
+		}
 		if m.chk(big) != Unsat {
 			m.violate("alloc", "AllocBound", fmt.Sprintf("allocation size can exceed %d at %s", m.allocMax, m.where()))
 		}
@@ -1238,6 +1252,17 @@ func (m *machine) callBuiltin(caller *frame, fn *ssa.Builtin, args []value, site
 			return (*value)(nil)
 		}
 		return &s[:1][0]
+	case "close":
+		ch, _ := args[0].(*chanV)
+		if ch == nil {
+			panic(&targetPanic{v: m.rtErr("close of nil channel"), site: m.where()})
+		}
+		if ch.closed {
+			panic(&targetPanic{v: m.rtErr("close of closed channel"), site: m.where()})
+		}
+		m.hbRelease(ch)
+		ch.closed = true
+		return nil
 	case "StringData":
 		s := args[0].(strV)
 		if s.Len() == 0 {
@@ -1318,6 +1343,7 @@ func (m *machine) chanRecv(chv value, et types.Type) (value, bool) {
 			return v, true
 		}
 		if ch.closed {
+			m.hbAcquire(ch)
 			return m.zero(et), false
 		}
 		if ch.timer {
